@@ -524,6 +524,14 @@ impl Ctx {
             let sig = format!("alloc-unbounded-{parser}");
             self.s.oracle_fail(&sig, &format!("{parser} requested {} bytes in one allocation for {} input bytes (bound {c}*len+{k}+{allow}) [{seed_id} {et}]", obs.max_alloc, data.len()), &short(&replay));
         }
+        if parser == "localhdr" {
+            // value-level tie of LocalHeader::from_bytes + blte_size (saturating since fix 84a8898)
+            let r = match cascette_client_storage::storage::local_header::LocalHeader::from_bytes(&data) {
+                Some(h) => format!("blte={}", h.blte_size()),
+                None => "none".to_string(),
+            };
+            self.s.line(&format!("lhdr {}", hex(&data)), &r);
+        }
         // non-trivial: a mutated/spliced/truncated input (not the pristine seed) that is new
         let nontrivial = !edits.is_empty() && self.emitted.insert(key.clone());
         self.s.case(if nontrivial { Some(&key) } else { None });
@@ -748,6 +756,76 @@ fn seed_lru(n: usize) -> Vec<u8> {
     }
 }
 
+const ESPEC_FORMS: &[&str] = &[
+    "n", "z", "z:9", "z:0", "z:10", "z:256", "z:{9,mpq}", "z:{,mpq}", "z:{6,15}", "z:{6,7}", "z:{9,zlib,15}", "z:{9,lz4hc}", "z:{}",
+    "z:{9,foo}", "z:{9,mpq,16}", "z:mpq", "z:{9", "c", "c:{3}", "c:{8}", "c:{0}", "c:3", "g", "g:{12}", "g:{13}", "g:{1}",
+    "e:{237DA26C65073F42,06FC152E,z}", "e:{237DA26C65073F42,06FC152E0011223344,z}", "e:{237DA26C65073F42,06FC15,z}",
+    "e:{237DA26C65073F4,06FC152E,z}", "e:{237DA26C65073F42,06FG152E,z}", "e:{237DA26C65073F42,,z}", "e:{237DA26C65073F42,06FC152E",
+    "e:{237DA26C65073F42,06FC152E,b:{*=e:{237DA26C65073F42,06FC152E,n}}}", "b:n", "b:z:9", "b:256K*=z", "b:*=n", "b:*", "b:256K", "b:",
+    "b:{164=z,16K*565=z:{6,mpq},1M*=n}", "b:{*=z,*=n}", "b:{1G=z}", "b:{1T=z}", "b:{16K*4294967295=z}", "b:{16K*4294967296=z}",
+    "b:{*5=n}", "b:{*4294967296=n}", "b:{18446744073709551615=n}", "b:{18446744073709551616=n}", "b:{18446744073709551615M=n}",
+    "b:{1M*=b:{1K*=b:{256*=z}}}", "b:{1=n,}", "b:{1=n", "b:{=n}", "b:{1K*3=n,2M=z:{9,mpq},*=c:{4}}", "x", "nn", "n}", "b:{1=n}}",
+];
+
+fn seed_root(v: u8) -> Vec<u8> {
+    // v: 1 = V1 (no header), 2 = classic MFST header, 3 = extended V3, 4 = extended V4, 5 = extended V4 with 24-byte header
+    let mut d = vec![];
+    let n = 2u32;
+    if v >= 2 {
+        d.extend_from_slice(b"TSFM");
+        if v >= 3 {
+            d.extend_from_slice(&(if v == 5 { 24u32 } else { 20 }).to_le_bytes());
+            d.extend_from_slice(&(if v == 3 { 3u32 } else { 4 }).to_le_bytes());
+        }
+        d.extend_from_slice(&n.to_le_bytes());
+        d.extend_from_slice(&n.to_le_bytes());
+        if v == 5 {
+            d.extend_from_slice(&0u32.to_le_bytes());
+        }
+    }
+    for blk in 0..2u32 {
+        d.extend_from_slice(&n.to_le_bytes());
+        match v {
+            1 => {
+                d.extend_from_slice(&0u32.to_le_bytes());
+                d.extend_from_slice(&(1u32 << blk).to_le_bytes());
+            }
+            2 | 3 => {
+                d.extend_from_slice(&(1u32 << blk).to_le_bytes());
+                d.extend_from_slice(&(if blk == 1 { 0x1000_0000u32 } else { 0 }).to_le_bytes());
+                d.extend_from_slice(&0u32.to_le_bytes());
+                d.push(0);
+            }
+            _ => {
+                d.extend_from_slice(&(1u32 << blk).to_le_bytes());
+                d.extend_from_slice(&(if blk == 1 { 0x1000_0000u32 } else { 0 }).to_le_bytes());
+                d.push(0);
+                d.extend_from_slice(&0u32.to_le_bytes());
+                d.push(0);
+            }
+        }
+        let names = v == 1 || blk == 0;
+        d.extend_from_slice(&(10 + blk).to_le_bytes());
+        d.extend_from_slice(&0u32.to_le_bytes());
+        if v == 1 {
+            for r in 0..n {
+                d.extend_from_slice(&[0x70 + r as u8; 16]);
+                d.extend_from_slice(&(0x1122_3344_5566_7700u64 + u64::from(r)).to_le_bytes());
+            }
+        } else {
+            for r in 0..n {
+                d.extend_from_slice(&[0x70 + r as u8; 16]);
+            }
+            if names {
+                for r in 0..n {
+                    d.extend_from_slice(&(0x1122_3344_5566_7700u64 + u64::from(r)).to_le_bytes());
+                }
+            }
+        }
+    }
+    d
+}
+
 const SIZE_SEED: &[u8] = &[
     b'D', b'S', 1, 9, 0, 0, 0, 1, 0, 0, 0, 0, 0, 0, 0, 0, 0, 100, 4, // header V1: 1 entry, 0 tags, total 100, esize 4 bytes
     1, 2, 3, 4, 5, 6, 7, 8, 9, 0, 0, 0, 100,
@@ -785,8 +863,8 @@ fn fields(parser: &str) -> Vec<(i64, usize, bool)> {
         "pindex" => vec![(0, 4, false), (4, 4, false), (8, 4, false), (12, 2, false), (14, 4, false), (14, 1, false), (18, 4, false), (22, 4, false), (26, 4, false), (30, 1, false)],
         "zbsdiff" | "zbsparse" => vec![(8, 8, false), (16, 8, false), (24, 8, false)],
         "tvfs" => vec![(4, 1, true), (5, 1, true), (6, 1, true), (7, 1, true), (8, 4, true), (12, 4, true), (16, 4, true), (20, 4, true), (24, 4, true), (28, 4, true), (32, 2, true), (34, 4, true), (38, 4, true)],
-        "root" => vec![(0, 4, false), (4, 4, false), (8, 4, false), (12, 4, false), (16, 4, false), (20, 4, false), (24, 4, false)],
-        "parchive" => vec![(2, 1, true), (3, 1, true), (4, 1, true), (5, 1, true), (6, 2, true), (8, 1, true), (9, 1, true)],
+        "root" => vec![(0, 4, false), (4, 4, false), (8, 4, false), (12, 4, false), (16, 4, false), (20, 4, false), (24, 4, false), (28, 4, false), (32, 4, false), (16, 1, false), (12, 1, false), (24, 1, false), (28, 1, false)],
+        "parchive" => vec![(2, 1, true), (3, 1, true), (4, 1, true), (5, 1, true), (6, 1, true), (7, 2, true), (9, 1, true), (50, 1, true), (42, 4, true), (46, 4, true), (86, 4, true), (46, 4, true)],
         "idx" => vec![(0, 4, false), (8, 2, false), (12, 1, false), (13, 1, false), (14, 1, false), (15, 1, false), (32, 4, false)],
         "shmem" => vec![(0, 1, false), (0x154 + 0x18, 4, false)],
         "lru" => vec![(0, 2, false), (2, 2, false), (20, 4, false), (24, 4, false)],
@@ -1034,6 +1112,68 @@ fn hand_seeds(c: &mut Ctx) -> Vec<(String, String)> {
     });
     add(c, &["shmem"], "shmem_v5", seed_shmem_v5(2, 0x154 + 0x1C + 16));
     add(c, &["shmem"], "shmem_v5_big", seed_shmem_v5(2, 0x400));
+    for (i, sz) in [0u32, 1, 29, 30, 31, 0xFFFF_FFFF].iter().enumerate() {
+        let mut d = vec![0x11u8; 30];
+        d[0x10..0x14].copy_from_slice(&be32(*sz));
+        add(c, &["localhdr"], &format!("localhdr_sz{i}"), d);
+    }
+    // root: hand-framed V1 / classic V2 / extended V3, V4 (header 20 and 24 bytes)
+    for v in 1..=5u8 {
+        add(c, &["root"], &format!("root_v{v}"), seed_root(v));
+    }
+    // patch archive: builder output and a hand-framed header with the extended (encoding info) header
+    {
+        let mut b = cascette_formats::patch_archive::PatchArchiveBuilder::new();
+        b.add_file_entry([2; 16], 1000, vec![([1; 16], 500, [3; 16], 200, 0)]);
+        b.add_file_entry([4; 16], 2000, vec![([5; 16], 700, [6; 16], 300, 1), ([7; 16], 800, [8; 16], 400, 2)]);
+        if let Ok(d) = b.build() {
+            add(c, &["parchive"], "pa_built", d);
+        }
+        let mut d = b"PA".to_vec();
+        d.extend_from_slice(&[2, 16, 16, 16, 16, 0, 1, 2]); // version, 3 key sizes, bits, block_count=1, flags=2
+        d.extend_from_slice(&[0xA1; 16]);
+        d.extend_from_slice(&[0xA2; 16]);
+        d.extend_from_slice(&be32(100));
+        d.extend_from_slice(&be32(80));
+        d.push(3);
+        d.extend_from_slice(b"b:n");
+        d.extend_from_slice(&[0xB1; 16]); // block table: last ckey, md5, offset
+        d.extend_from_slice(&[0xB2; 16]);
+        let off = d.len() as u32 + 4;
+        d.extend_from_slice(&be32(off));
+        d.push(0); // sentinel
+        add(c, &["parchive"], "pa_ext", d);
+    }
+    // ESpec grammar: valid and invalid forms of every production, nesting at the limit
+    for (i, e) in ESPEC_FORMS.iter().enumerate() {
+        add(c, &["espec"], &format!("espec_f{i}"), e.as_bytes().to_vec());
+    }
+    for n in [62usize, 63, 64, 65, 30000] {
+        let mut e = "b:".repeat(n);
+        e.push('n');
+        add(c, &["espec"], &format!("espec_b{n}"), e.into_bytes());
+    }
+    for n in [63usize, 64] {
+        let mut e = "e:{237DA26C65073F42,06FC152E,".repeat(n);
+        e.push('n');
+        e.push_str(&"}".repeat(n));
+        add(c, &["espec"], &format!("espec_e{n}"), e.into_bytes());
+        let mut e = "b:{*=".repeat(n);
+        e.push('z');
+        e.push_str(&"}".repeat(n));
+        add(c, &["espec"], &format!("espec_bb{n}"), e.into_bytes());
+    }
+    // residency db: page counts far beyond the file
+    for (i, cnt) in [0u32, 1, 2, 0xFFFF_FFFF].iter().enumerate() {
+        let mut d = vec![3u8];
+        d.extend_from_slice(&cnt.to_le_bytes());
+        d.extend_from_slice(&[0u8; 2048]);
+        d.push(1);
+        d.extend_from_slice(&1u32.to_le_bytes());
+        add(c, &["residency"], &format!("res_cnt{i}"), d);
+    }
+    add(c, &["lru"], "lru_0", seed_lru(0));
+    add(c, &["lru"], "lru_20", seed_lru(20));
     add(c, &["localhdr"], "localhdr_min", {
         let mut d = vec![0x77u8; 30];
         d[0x10..0x14].copy_from_slice(&be32(130));
@@ -1046,7 +1186,7 @@ fn hand_seeds(c: &mut Ctx) -> Vec<(String, String)> {
 fn cfg_line(c: &mut Ctx) {
     use std::mem::size_of;
     let l = format!(
-        "cfg enc_idx={} enc_pagec={} enc_pagee={} in_tag={} in_entry={} dl_entry={} dl_tag={} sz_entry={}",
+        "cfg enc_idx={} enc_pagec={} enc_pagee={} in_tag={} in_entry={} dl_entry={} dl_tag={} sz_entry={} root_hash={} root_rec={} pa_block={} lru_entry={}",
         size_of::<cascette_formats::encoding::IndexEntry>(),
         size_of::<cascette_formats::encoding::Page<cascette_formats::encoding::CKeyPageEntry>>(),
         size_of::<cascette_formats::encoding::Page<cascette_formats::encoding::EKeyPageEntry>>(),
@@ -1055,6 +1195,10 @@ fn cfg_line(c: &mut Ctx) {
         size_of::<cascette_formats::download::DownloadFileEntry>(),
         size_of::<cascette_formats::download::DownloadTag>(),
         size_of::<cascette_formats::size::SizeEntry>(),
+        size_of::<Option<u64>>(),
+        size_of::<cascette_formats::root::RootRecord>(),
+        size_of::<cascette_formats::patch_archive::PatchBlock>(),
+        size_of::<cascette_client_storage::lru::lru_file::LruFileEntry>(),
     );
     c.s.line(&l, "ok");
 }
@@ -1126,6 +1270,23 @@ fn main() {
         }
         let per = if thorough { 400 } else if len > 16 * 1024 { 12 } else { 60 };
         mutate_cases(&mut c, &mut rng, p, sid, per);
+    }
+    // 3b. ESpec: random token sequences (grammar-level exploration for the complete Lean grammar model)
+    {
+        const TOK: [&str; 36] = [
+            "b:", "b:{", "{", "}", "}", "=", ",", "*", "z", "n", "c", "g", "e:{237DA26C65073F42,06FC152E,", "e:{", ":", "z:{", "z:", "9", "6",
+            "15", "16", "256", "K", "M", "G", "mpq", "zlib", "lz4hc", "*=", "=n", "=z", "1K*=", "c:{3}", "g:{5}", "4294967296", "0",
+        ];
+        c.seed("empty", vec![]);
+        let n = if thorough { 20000 } else { 2500 };
+        for _ in 0..n {
+            let k = rng.range(1, 12) as usize;
+            let mut e = String::new();
+            for _ in 0..k {
+                e.push_str(*rng.pick(&TOK));
+            }
+            c.case("espec", "empty", &[Edit::App(e.into_bytes())], "espec-tokens");
+        }
     }
     // 4. thorough: every offset of the first 48 bytes × width × endianness × boundary value
     if thorough {
